@@ -61,7 +61,7 @@ var properties = map[string]propSpec{
 	"C15": {Rules: rl{ruleAuthGate}, Keep: kp{"I6"}},
 	"C16": {Rules: rl{ruleEntityActions, ruleSnapshot, ruleOwnerGuard, ruleModuleInit, ruleModuleCleanup}, Keep: kp{"H3", "S-", "D5", "C7", "D1", "J4", "J3", "E3"}},
 	"C17": {Rules: rl{ruleFlagWrap}},
-	"C18": {Rules: rl{ruleLatencyStart, ruleLatencyReport, ruleMapOrderFree, ruleAnswers}, Keep: kp{"H2", "I1", "I2", "I3", "I4", "B1", "B2", "B4"}, Sites: map[string][]string{"B": {"HandleSignedLatency", "HandlePingResponse"}}},
+	"C18": {Rules: rl{ruleLatencyStart, ruleLatencyReport, ruleMapOrderFree, ruleAnswers}, Keep: kp{"H2", "I1", "I2", "I3", "I4", "B1", "B2", "B4", "B7"}, Sites: map[string][]string{"B": {"HandleSignedLatency", "HandlePingResponse"}}},
 	"C19": {Rules: rl{ruleReceiptFlow, ruleAnswers}, Keep: kp{"I5", "B1", "B2", "B4"}, Sites: map[string][]string{"B": {"HandleReceipt"}}},
 	"C20": {Rules: rl{ruleModuleInit, ruleClampSymmetry, ruleGuardedBy}, Keep: kp{"J3", "J4", "G3", "F1"}, Sites: map[string][]string{"F1": {"RegularGrid", "State.SpatialPartition"}}},
 }
